@@ -303,3 +303,60 @@ theorem fixAll_eq_threaded (allowLong : Bool) :
       | ok q => rfl
 
 end ASV.Parallel
+
+namespace ASV.Parallel
+
+variable {α ε β : Type}
+
+/-! ### the helper looks at `f` only on the batch's own arguments -/
+
+theorem comprehension_congr (f f' : α → Except ε β) :
+    ∀ (l : List α), (∀ a ∈ l, f a = f' a) → comprehension f l = comprehension f' l
+  | [], _ => rfl
+  | a :: rest, h => by
+    simp only [comprehension, h a (by simp),
+      comprehension_congr f f' rest (fun x hx => h x (by simp [hx]))]
+
+theorem await_congr (run run' : List α → Except ε (List β)) (tasks : List (List α)) (ht : Bool)
+    (h : ∀ t ∈ tasks, run t = run' t) :
+    ∀ (evs : List Event) (mr : MapResult ε β),
+      awaitResultsWith run tasks ht mr evs = awaitResultsWith run' tasks ht mr evs
+  | [], mr => by
+    rw [awaitResultsWith.eq_def]; conv => rhs; rw [awaitResultsWith.eq_def]
+  | ev :: rest, mr => by
+    rw [awaitResultsWith.eq_def]; conv => rhs; rw [awaitResultsWith.eq_def]
+    cases ev with
+    | timeout => simp only [await_congr run run' tasks ht h rest mr]
+    | died w => rfl
+    | bystander p => simp only [await_congr run run' tasks ht h rest mr]
+    | done i =>
+      cases hti : tasks[i]? with
+      | none => simp only [hti, await_congr run run' tasks ht h rest mr]
+      | some t =>
+        have ht' : t ∈ tasks := List.mem_of_getElem? hti
+        simp only [hti, h t ht', await_congr run run' tasks ht h rest _]
+
+theorem mem_of_mem_getTasksAux (size : Nat) :
+    ∀ (fuel : Nat) (l : List α) (t : List α) (a : α), t ∈ getTasksAux size fuel l → a ∈ t → a ∈ l
+  | 0, _, _, _, h, _ => by simp [getTasksAux] at h
+  | fuel + 1, l, t, a, h, ha => by
+    simp only [getTasksAux] at h
+    split at h
+    · simp at h
+    · rcases List.mem_cons.mp h with rfl | h
+      · exact List.mem_of_mem_take ha
+      · exact List.mem_of_mem_drop (mem_of_mem_getTasksAux size fuel (l.drop size) t a h ha)
+
+/-- two call functions that agree on the arguments of the batch are indistinguishable -/
+theorem parallelFunction_congr (configCpus : Nat) (f f' : α → Except ε β) (args : List α) (cpus : Nat)
+    (ht : Bool) (evs : List Event) (h : ∀ a ∈ args, f a = f' a) :
+    parallelFunction configCpus f args cpus ht evs = parallelFunction configCpus f' args cpus ht evs := by
+  unfold parallelFunction poolRun poolRunWith
+  rw [comprehension_congr f f' args h]
+  have hrun : ∀ t ∈ getTasks (chunkSize args.length (resolveCpus configCpus cpus)) args,
+      comprehension f t = comprehension f' t := by
+    intro t htm
+    exact comprehension_congr f f' t fun a ha => h a (mem_of_mem_getTasksAux _ _ args t a htm ha)
+  simp only [await_congr _ _ _ ht hrun]
+
+end ASV.Parallel
